@@ -133,11 +133,11 @@ def _implied_equal(a, b, timeout_ms=5000):
     hit = e.persist.get(key)
     if hit is not None:
         return hit[0]
-    e.solver.set('timeout', timeout_ms)
+    e.set_timeout(timeout_ms)
     try:
         r = e._check(a != b)
     finally:
-        e.solver.set('timeout', e.check_timeout_ms)
+        e.set_timeout()
     e.persist[key] = (r == z3.unsat, a, b)
     return r == z3.unsat
 
@@ -148,11 +148,11 @@ def _implied_different(a, b, timeout_ms=5000):
     hit = e.persist.get(key)
     if hit is not None:
         return hit[0]
-    e.solver.set('timeout', timeout_ms)
+    e.set_timeout(timeout_ms)
     try:
         r = e._check(a == b)
     finally:
-        e.solver.set('timeout', e.check_timeout_ms)
+        e.set_timeout()
     e.persist[key] = (r == z3.unsat, a, b)
     return r == z3.unsat
 
